@@ -1785,7 +1785,7 @@ pub fn c08(ctx: &mut Ctx) {
             ("From<io::Error>", Box::new(|| format!("{}", SignatureError::from(std::io::Error::new(std::io::ErrorKind::Other, "x"))))),
             ("From<BoxError> foreign", Box::new(|| { let b: Box<dyn std::error::Error + Send + Sync> = "plain".into(); imp::kind_of(&SignatureError::from(b)).to_string() })),
             ("From<BoxError> signature error", Box::new(|| { let b: Box<dyn std::error::Error + Send + Sync> = Box::new(imp::make_error("ExpiredToken")); imp::kind_of(&SignatureError::from(b)).to_string() })),
-            ("KeyTooLongError display", Box::new(|| format!("{} {:?}", scratchstack_aws_signature::KeyTooLongError, scratchstack_aws_signature::KeyTooLongError))),
+            ("KeyTooLongError display", Box::new(|| { use std::str::FromStr; match scratchstack_aws_signature::KSecretKey::<44>::from_str(&"k".repeat(50)) { Err(e) => format!("{} {:?}", e, e), Ok(_) => "accepted".to_string() } })),
             ("SignatureOptions", Box::new(|| format!("{:?} {:?}", scratchstack_aws_signature::SignatureOptions::url_encode_form(), scratchstack_aws_signature::SignatureOptions::S3))),
         ];
         for (name, f) in probes {
